@@ -158,9 +158,12 @@ def parse_model(it, cls, wire, markers, node=None):
     """summary of cls.parse(wire, markers): may raise a documented decoding error, else a LazyParsed instance;
     marker side effects of the shipped packet classes are reproduced symbolically"""
     run = it.run
+    ov = run.ghost.get('parse_override', {}).get(cls)
     tag = run.choose([('normal', True)] + [(e, True) for e in PARSE_RAISES], f'{cls.__name__}.parse')
     if tag != 'normal':
         raise PyExc(tag, (f'{cls.__name__}.parse (summary)',), getattr(node, 'lineno', None), it.where())
+    if ov is not None:
+        return ov(it, wire, markers)
     inst = LazyParsed(run, cls, wire, markers)
     if cls in (nf.InterestPacketValue, nf.DataPacketValue):
         cov = []
